@@ -3,6 +3,7 @@ Shared driver state and printing helpers.
 -/
 import GoderiveModel.U.Wire
 import GoderiveModel.U.Typing
+import GoderiveModel.S.Methods
 
 open Goderive
 
@@ -13,12 +14,13 @@ structure DState where
 
 def DState.env (s : DState) : Env := { decls := s.decls.toList }
 
-/-- recompute the `canEq` flags as a fixpoint (never trusted from the wire) -/
+/-- recompute the `canEq` / `canEqM` flags as fixpoints (never trusted from the wire) -/
 def fixFlags (ds : Array Decl) : Array Decl := Id.run do
-  let mut cur := ds.map fun d => { d with canEq := true }
+  let mut cur := ds.map fun d => { d with canEq := true, canEqM := d.eqM.isNone }
   for _ in [0:ds.size + 1] do
     let env : Env := { decls := cur.toList }
-    cur := cur.map fun d => { d with canEq := canEqual env d.under }
+    cur := cur.map fun d => { d with canEq := canEqual env d.under,
+                                     canEqM := d.eqM.isNone && canEqualM env d.under }
   return cur
 
 def showRes (r : Res Bool) : String :=
